@@ -81,6 +81,9 @@ def parseCli (fs : List String) : Option CliEdit :=
   | ["delout", l] => some (.delOutputs (ids l))
   | ["addbond", a, b] => some (.addBond (parseName a) (parseName b))
   | ["delbonds", l] => some (.delBonds (ids l))
+  | ["addproc", _, n, m] => some (.addProcessor (nat! n) (nat! m))
+  | ["attach", a, b] => some (.attach (parseName a) (parseName b))
+  | ["attach2", a, b] => some (.attach (parseName a) (parseName b))
   | _ => none
 
 structure St where
